@@ -297,3 +297,17 @@ func runC03(r *Run) {
 		}
 	}
 }
+
+func c03RenderAny(src string, data any) (string, error) {
+	var buf bytes.Buffer
+	var err error
+	func() {
+		defer func() {
+			if x := recover(); x != nil {
+				err = fmt.Errorf("PANIC %v", x)
+			}
+		}()
+		err = vuego.New().Fill(data).RenderString(context.Background(), &buf, src)
+	}()
+	return buf.String(), err
+}
